@@ -49,6 +49,8 @@ _FAMS = None
 def _job(i):
     fam = _FAMS[i]
     t0 = time.time()
+    from ovc import engine as _eng
+    _eng.reset_ground_cache()
     try:
         res = fam['run']()
         res.setdefault('records', [])
@@ -96,6 +98,10 @@ def check(pid, tier, seed, jobs):
     t0 = time.time()
     mod = importlib.import_module(f'props.{pid}')
     fams = mod.families(tier, seed)
+    only = os.environ.get('OVC_ONLY')      # development aid: restrict to families matching a regex
+    if only:
+        import re
+        fams = [f for f in fams if re.search(only, f['name'])]
     _FAMS = fams
     results = [None] * len(fams)
     if jobs > 1 and len(fams) > 1:
